@@ -102,3 +102,46 @@ Lemma R_sym_px_both (n m : nat) (IM S : Rimg) (a : axis) (u : mask) (i j : nat) 
                         (px 0 IM (Nat.max i (n - 1 - i)) (Nat.min j (m - 1 - j)))
                         (px 0 IM (Nat.max i (n - 1 - i)) (Nat.max j (m - 1 - j))).
 Proof. intros H Hn Hm Ha HS Hi Hj. apply (@sym_px_both _ 0 Rplus Rdivn n m IM H Hn Hm a u S i j Ha HS Hi Hj). Qed.
+
+(* ---- the Fourier method ----------------------------------------------------- *)
+Lemma R_fourier_eq_average (n m : nat) (IM : Rimg) (u : mask) :
+  wf n m IM -> (1 <= n)%nat -> (1 <= m)%nat ->
+  (rejects ax_0 u = false -> symR ax_0 u Fourier IM = symR ax_0 mask_all Average IM) /\
+  (rejects ax_1 u = false -> symR ax_1 u Fourier IM = symR ax_1 mask_all Average IM).
+Proof.
+  intros H Hn Hm. split.
+  - apply (@fourier_eq_average_0 _ 0 Rplus Rdivn n m IM H Hn Hm Rplus_comm).
+  - apply (@fourier_eq_average_1 _ 0 Rplus Rdivn n m IM H Hn Hm Rplus_comm).
+Qed.
+
+Lemma R_fourier_mirror (n m : nat) (IM S : Rimg) (u : mask) :
+  wf n m IM -> (1 <= n)%nat -> (1 <= m)%nat ->
+  (symR ax_0 u Fourier IM = Ok S -> fliplr S = S) /\
+  (symR ax_1 u Fourier IM = Ok S -> flipud S = S) /\
+  (forall a, In a both_spellings -> symR a u Fourier IM = Ok S -> fliplr S = S /\ flipud S = S).
+Proof.
+  intros H Hn Hm. split; [|split].
+  - apply (@fourier_mirror_0 _ 0 Rplus Rdivn n m IM H Hn Hm Rplus_comm).
+  - apply (@fourier_mirror_1 _ 0 Rplus Rdivn n m IM H Hn Hm Rplus_comm).
+  - intros a. apply (@fourier_mirror_both _ 0 Rplus Rdivn n m IM H Hn Hm Rplus_comm a u S).
+Qed.
+
+Lemma R_fourier_fix (n m : nat) (IM : Rimg) (u : mask) :
+  wf n m IM -> (1 <= n)%nat -> (1 <= m)%nat ->
+  (fliplr IM = IM -> rejects ax_0 u = false -> symR ax_0 u Fourier IM = Ok IM) /\
+  (flipud IM = IM -> rejects ax_1 u = false -> symR ax_1 u Fourier IM = Ok IM) /\
+  (forall a, In a both_spellings ->
+     fliplr IM = IM -> flipud IM = IM -> rejects a u = false -> symR a u Fourier IM = Ok IM).
+Proof.
+  intros H Hn Hm. split; [|split].
+  - apply (@fourier_fix_0 _ 0 Rplus Rdivn n m IM H Hn Hm Rplus_comm R_mean_laws).
+  - apply (@fourier_fix_1 _ 0 Rplus Rdivn n m IM H Hn Hm Rplus_comm R_mean_laws).
+  - intros a. apply (@fourier_fix_both _ 0 Rplus Rdivn n m IM H Hn Hm Rplus_comm R_mean_laws a u).
+Qed.
+
+Lemma R_fourier_idem (n m : nat) (IM S : Rimg) (u : mask) (a : axis) :
+  wf n m IM -> (1 <= n)%nat -> (1 <= m)%nat -> In a (ax_0 :: ax_1 :: both_spellings) ->
+  symR a u Fourier IM = Ok S -> symR a u Fourier S = Ok S.
+Proof.
+  intros H Hn Hm Ha. apply (@fourier_idem _ 0 Rplus Rdivn n m IM S a u R_mean_laws Rplus_comm H Hn Hm Ha).
+Qed.
